@@ -52,10 +52,25 @@ pub struct Decl {
     pub import: bool,
     pub optional: Option<bool>,
 }
+/// Maven's default artifact handlers (maven-core, "Default Artifact Handlers Reference"): the classifier a dependency
+/// type stands for when the `<dependency>` has no `<classifier>` of its own. All other types imply none.
+pub fn implied_classifier(type_: &str) -> Option<&'static str> {
+    match type_ { "test-jar" => Some("tests"), "ejb-client" => Some("client"), "java-source" => Some("sources"), "javadoc" => Some("javadoc"), _ => None }
+}
+/// File extension of a type by the same table (`bundle`: maven-bundle-plugin, as documented in the crate).
+pub fn extension_of(type_: &str) -> &str {
+    match type_ { "test-jar" | "maven-plugin" | "ejb" | "ejb-client" | "java-source" | "javadoc" | "bundle" => "jar", t => t }
+}
+
 impl Decl {
+    pub fn type_or_default(&self) -> &str { self.type_.as_deref().unwrap_or("jar") }
+    /// identity of the declared artifact: the type's implied classifier stands in for an absent `<classifier>`
     pub fn key(&self) -> Key {
-        Key { group: self.group.clone(), artifact: self.artifact.clone(), classifier: self.classifier.clone(), type_: self.type_.clone().unwrap_or_else(|| "jar".into()) }
+        let t = self.type_or_default();
+        Key { group: self.group.clone(), artifact: self.artifact.clone(), classifier: self.classifier.clone().or_else(|| implied_classifier(t).map(|c| c.to_string())), type_: t.to_string() }
     }
+    /// the declaration leaves the classifier to the type
+    pub fn relies_on_implied(&self) -> bool { self.classifier.is_none() && implied_classifier(self.type_or_default()).is_some() }
 }
 
 #[derive(Clone, Debug, PartialEq, Eq)]
